@@ -173,11 +173,13 @@ theorem rowSpec_zero_true {b : Basis K} (hv : b.Valid) (v : K) (j : ℕ) :
 
 /-- What `get_derivative_spline(dir)` returns for a non-periodic direction, in the vocabulary of this file. -/
 theorem getDerivativeSpline_nonperiodic {o o' : Obj K} {tol : K} {dir : ℕ} {b : Basis K}
-    (hbd : o.basis dir = b) (hper : b.periodic = -1) (h : o.getDerivativeSpline tol dir = .ok o') :
+    (hbd : o.basis dir = b) (hper : b.periodic = -1) (h : o.getDerivativeSpline tol dir = .ok o')
+    (hsort : ∀ i, i + 1 < b.knots.size → b.kn i ≤ b.kn (i + 1)) :
     o'.rational = false ∧
     o'.cps = applyAxis (Obj.derivativeMatrix b (o.cps.shape.getD dir 0)) o.cps dir ∧
     ∃ nb, o'.bases = o.bases.set! dir nb ∧ IsDerivBasis b nb := by
-  obtain ⟨-, -, hr', hcps, nb, hbases, hord, hkn, hperi⟩ := getDerivativeSpline_ok o o' tol dir h
+  obtain ⟨-, -, hr', hcps, nb, hbases, hord, hkn, hperi⟩ :=
+    getDerivativeSpline_ok_sorted o o' tol dir h (by rw [hbd]; exact hsort)
   rw [hbd] at hcps hord hkn hperi
   exact ⟨hr', hcps, nb, hbases, hord, hkn, by rw [hperi, hper]; decide⟩
 
@@ -193,7 +195,7 @@ theorem Obj.derivSpline_curve {o o' : Obj K} {b : Basis K} (hb : o.bases = #[b])
     ∃ rv rd, o'.evaluate tol [us] true = .ok rv ∧
       o.derivativeGeneric tol [us] [1] [true] true = .ok rd ∧
       ∀ i c, i < us.length → c < nc → rv.get (i * nc + c) = rd.get (i * nc + c) := by
-  obtain ⟨hr', hcps, nb, hbases, hD⟩ := getDerivativeSpline_nonperiodic (Obj.basis_zero hb) hper h
+  obtain ⟨hr', hcps, nb, hbases, hD⟩ := getDerivativeSpline_nonperiodic (Obj.basis_zero hb) hper h hv.sorted
   have hperlt : b.periodic < 0 := by rw [hper]; decide
   have hvnb := hD.valid hv hp
   have hb' : o'.bases = #[nb] := by rw [hbases, hb]; rfl
@@ -248,7 +250,7 @@ theorem Obj.derivSpline_surface_u {o o' : Obj K} {b1 b2 : Basis K} (hb : o.bases
       o.derivativeGeneric tol [us, vs] [1, 0] [true, true] true = .ok rd ∧
       ∀ i1 i2 c, i1 < us.length → i2 < vs.length → c < nc →
         rv.get ((i1 * vs.length + i2) * nc + c) = rd.get ((i1 * vs.length + i2) * nc + c) := by
-  obtain ⟨hr', hcps, nb, hbases, hD⟩ := getDerivativeSpline_nonperiodic (Obj.basis_two_zero hb) hper h
+  obtain ⟨hr', hcps, nb, hbases, hD⟩ := getDerivativeSpline_nonperiodic (Obj.basis_two_zero hb) hper h hv1.sorted
   have hperlt : b1.periodic < 0 := by rw [hper]; decide
   have hvnb := hD.valid hv1 hp
   have hb' : o'.bases = #[nb, b2] := by rw [hbases, hb]; rfl
@@ -341,7 +343,7 @@ theorem Obj.derivSpline_surface_v {o o' : Obj K} {b1 b2 : Basis K} (hb : o.bases
       o.derivativeGeneric tol [us, vs] [0, 1] [true, true] true = .ok rd ∧
       ∀ i1 i2 c, i1 < us.length → i2 < vs.length → c < nc →
         rv.get ((i1 * vs.length + i2) * nc + c) = rd.get ((i1 * vs.length + i2) * nc + c) := by
-  obtain ⟨hr', hcps, nb, hbases, hD⟩ := getDerivativeSpline_nonperiodic (Obj.basis_two_one hb) hper h
+  obtain ⟨hr', hcps, nb, hbases, hD⟩ := getDerivativeSpline_nonperiodic (Obj.basis_two_one hb) hper h hv2.sorted
   have hperlt : b2.periodic < 0 := by rw [hper]; decide
   have hvnb := hD.valid hv2 hp
   have hb' : o'.bases = #[b1, nb] := by rw [hbases, hb]; rfl
